@@ -128,7 +128,7 @@ def work(item):
 def run(ctx):
     bse = import_bse()
     R = Result('C14')
-    pairs = sample_pairs(ctx, ctx.n(14, 10 ** 6))
+    pairs = sample_pairs(ctx, ctx.n(14, 10 ** 6), heavy=False)
     items = [(n, v, '%s-%d' % (n, ctx.seed)) for n, v in pairs]
     reqs, meta = [], []
     ntraces = 0
@@ -162,6 +162,20 @@ def run(ctx):
                     raise DriverError(a['drv_error'])
                 if a.get('text') != headed:
                     R.disagree('assemble', w, (a.get('text') or a.get('raise'))[:120], headed[:120], note='assembled text differs')
+            # what the reader goes on with: the model of prune_lines(text.splitlines(), skipchars) against helpers.prune_lines on the headed texts
+            # (a sample of them: the comparison ships the text twice)
+            from basis_set_exchange.readers import helpers as rh
+            pick = [(w, headed) for (w, headed) in meta if len(headed) < 60000][:(40 if ctx.thorough else 5)]
+            for skip in (('#', '!', '!#$', '*#$') if ctx.thorough else ('#', '!#$')):
+                rl = drive([dict(op='reader_lines', s=headed, skip=skip) for _, headed in pick])
+                for a, (w, headed) in zip(rl, pick):
+                    if 'drv_error' in a:
+                        raise DriverError(a['drv_error'])
+                    want = rh.prune_lines(headed.splitlines(), skip)
+                    R.ev()
+                    if a.get('lines') != want:
+                        k = next((i for i, (x, y) in enumerate(zip(a.get('lines') or [], want)) if x != y), min(len(a.get('lines') or []), len(want)))
+                        R.disagree('reader_lines', dict(w, skip=skip), str((a.get('lines') or [])[k:k + 2])[:160], str(want[k:k + 2])[:160], note='pruned lines differ at %d' % k)
             ntraces += len(reqs)
             reqs, meta = [], []
     if ctx.model_ok:
@@ -170,7 +184,14 @@ def run(ctx):
         for a, s in zip(sl, NASTY):
             if a.get('lines') != s.splitlines(True):
                 R.disagree('splitlines', dict(s=s[:40]), a.get('lines'), s.splitlines(True))
-        R.extra['traces_validated_against_model'] = ntraces + len(NASTY)
+        # and on the nasty strings, where white space and line boundaries are unusual
+        from basis_set_exchange.readers import helpers as rh
+        rl = drive([dict(op='reader_lines', s='# a\n' + s + '\n  ! b \n', skip='#!') for s in NASTY])
+        for a, s in zip(rl, NASTY):
+            want = rh.prune_lines(('# a\n' + s + '\n  ! b \n').splitlines(), '#!')
+            if a.get('lines') != want:
+                R.disagree('reader_lines', dict(s=s[:40]), str(a.get('lines'))[:160], str(want)[:160])
+        R.extra['traces_validated_against_model'] = ntraces + 2 * len(NASTY)
     return R
 
 
